@@ -313,6 +313,11 @@ void TypeChecker::handleError(T expr, const std::string& msg)
 void TypeChecker::checkIgnoredValue(expression_t expr)
 {
     static const auto message = "$Expression_does_not_have_any_effect";
+    // A comma expression whose last operand has an effect needs no warning. Looking at that (small) operand first
+    // keeps the check of a list of n updates linear: such a list is a left-deep chain of comma expressions and
+    // this function is called for the left operand of each of them.
+    if (expr.get_kind() == COMMA && expr[1].changes_any_variable())
+        return;
     if (!expr.changes_any_variable() && expr.get_kind() != FUN_CALL_EXT) {
         handleWarning(expr, message);
     } else if (expr.get_kind() == COMMA && !expr[1].changes_any_variable() && expr[1].get_kind() != FUN_CALL_EXT) {
